@@ -296,6 +296,7 @@ func runC17(r *Report) {
 		// inductive steps: returns and recursive arguments are >= 0
 		c := NewBCtx(reader)
 		assume(c)
+		c.induction()
 		for _, b := range reader.Blocks {
 			for i, in := range b.Instrs {
 				switch x := in.(type) {
